@@ -344,7 +344,7 @@ def _one(check: Check, parts, spec, names, nlits, tmo, record, form="string"):
             return []
         outcome["r"] = type(e).__name__
         p = {"kind": "c16_spec", "spec": spec if form != "dict" else {k: v for k, v in spec.items()}, "form": form, "names": names,
-             "parts": parts, "lits": {str(i): 2.0 + i for i in lit_syms}, "x": {n: 1.0 for n in names}}
+             "parts": parts, "lits": {str(i): 2.25 + 1.5 * i for i in lit_syms}, "x": {n: 1.75 - 2.35 * k for k, n in enumerate(names)}}  # generic NON-integer values: dtype truncation must show
         bad = replays.run(p)
         if bad:
             check.violation(f"constraint::{type(e).__name__}", bad, p)
@@ -356,8 +356,12 @@ def _one(check: Check, parts, spec, names, nlits, tmo, record, form="string"):
         lits = {str(i): model_value(model, lit_syms[i]) for i in lit_syms}
         x = {n: model_value(model, xs[n]) for n in names}
         p = {"kind": "c16_spec", "spec": spec, "form": form, "names": names, "parts": parts, "lits": lits, "x": x}
-        bad = replays.run(p)
-        return (f"constraint({form})", bad, p) if bad else None
+        generic = dict(p, lits={str(i): 2.25 + 1.5 * i for i in lit_syms}, x={n: 1.75 - 2.35 * k for k, n in enumerate(names)})
+        for cand in (p, generic):
+            bad = replays.run(cand)
+            if bad:
+                return (f"constraint({form})", bad, cand)
+        return None
 
     pr = pre()
     if pr:
